@@ -121,7 +121,9 @@ inline void rd_well(const Opm::Well& w, const Opm::SummaryState& st, JW& out) {
         const auto& e = w.getEconLimits();
         out.key("econ").obj().kv_b("onAnyEffectiveLimit", e.onAnyEffectiveLimit()).kv_d("minOilRate", e.minOilRate()).kv_d("minGasRate", e.minGasRate())
             .kv_d("maxWaterCut", e.maxWaterCut()).kv_d("maxGasOilRatio", e.maxGasOilRatio()).kv_d("maxWaterGasRatio", e.maxWaterGasRatio())
-            .kv_i("workover", (int)e.workover()).kv_b("endRun", e.endRun()).kv_i("quantityLimit", (int)e.quantityLimit()).end_obj();
+            .kv_i("workover", (int)e.workover()).kv_b("endRun", e.endRun()).kv_i("quantityLimit", (int)e.quantityLimit())
+            .kv_d("maxSecondaryMaxWaterCut", e.maxSecondaryMaxWaterCut()).kv_i("workoverSecondary", (int)e.workoverSecondary())
+            .kv_b("requireSecondaryWorkover", e.requireSecondaryWorkover()).end_obj();
     }
     const auto& conns = w.getConnections();
     out.kv_i("connOrdering", (int)conns.ordering());
